@@ -12,7 +12,62 @@ namespace vf {
 // ---- SipHash -------------------------------------------------------------------
 // {"c":"sip","k0":word8,"k1":word8,"msg":[bytes]}: run-time hash over the same bytes presented as
 // uint8_t and as char buffers.
+// The array entry point SipHash::Compute(const T (&)[Size], k0, k1) - the one NOP_TABLE_NS / NOP_INTERFACE /
+// NOP_METHOD go through - for the fixed sizes below: every byte of the array counts, zero bytes included.
+template <typename T, size_t N>
+static uint64_t SipArray(const std::vector<uint8_t>& msg, uint64_t k0, uint64_t k1) {
+  T arr[N];
+  for (size_t i = 0; i < N; i++) arr[i] = static_cast<T>(msg[i]);
+  return nop::SipHash::Compute(arr, k0, k1);
+}
+template <typename T>
+static bool SipArrayN(const std::vector<uint8_t>& msg, uint64_t k0, uint64_t k1, uint64_t* out) {
+  switch (msg.size()) {
+#define VF_SIP_CASE(N) case N: *out = SipArray<T, N>(msg, k0, k1); return true;
+    VF_SIP_CASE(1) VF_SIP_CASE(2) VF_SIP_CASE(3) VF_SIP_CASE(4) VF_SIP_CASE(5) VF_SIP_CASE(6) VF_SIP_CASE(7) VF_SIP_CASE(8)
+    VF_SIP_CASE(9) VF_SIP_CASE(10) VF_SIP_CASE(11) VF_SIP_CASE(12) VF_SIP_CASE(13) VF_SIP_CASE(14) VF_SIP_CASE(15)
+    VF_SIP_CASE(16) VF_SIP_CASE(17) VF_SIP_CASE(23) VF_SIP_CASE(24) VF_SIP_CASE(25) VF_SIP_CASE(31) VF_SIP_CASE(32)
+    VF_SIP_CASE(33) VF_SIP_CASE(64)
+#undef VF_SIP_CASE
+    default: return false;
+  }
+}
+// compile-time hashes of arrays with interior / trailing zero bytes (constant expressions)
+struct CtArr { const char* label; std::vector<uint8_t> bytes; uint64_t h; };
+static constexpr char kPadded[16] = "padded";                 // zero-padded name kept in a larger array
+static constexpr char kInterior[] = "in\0terior";              // embedded zero in a literal
+static constexpr std::uint8_t kBin[12] = {1, 0, 2, 0, 0, 3, 0x80, 0, 0xff, 0, 0, 0};
+static constexpr std::uint8_t kZeros[9] = {0, 0, 0, 0, 0, 0, 0, 0, 0};
+static constexpr uint64_t kCtK0 = 0x0706050403020100ull, kCtK1 = 0x0f0e0d0c0b0a0908ull;
+static constexpr uint64_t kHPadded = nop::SipHash::Compute(kPadded, kCtK0, kCtK1);
+static constexpr uint64_t kHInterior = nop::SipHash::Compute(kInterior, kCtK0, kCtK1);
+static constexpr uint64_t kHBin = nop::SipHash::Compute(kBin, kCtK0, kCtK1);
+static constexpr uint64_t kHZeros = nop::SipHash::Compute(kZeros, kCtK0, kCtK1);
+template <typename T, size_t N>
+static void EmitCtArr(JsonOut& o, const char* label, const T (&a)[N], uint64_t h) {
+  o.begin_obj();
+  o.kv_str("label", label);
+  std::vector<uint8_t> b(N);
+  for (size_t i = 0; i < N; i++) b[i] = static_cast<uint8_t>(a[i]);
+  o.key("msg"); o.bytes(b.data(), b.size());
+  o.kv_word("ct", h, 8);
+  o.end_obj();
+}
+
 static void CmdSip(const Json& cmd, JsonOut& o) {
+  if (cmd.has("ctarrays")) {
+    o.kv_str("e", "SIPCT");
+    o.kv_word("k0", kCtK0, 8);
+    o.kv_word("k1", kCtK1, 8);
+    o.key("rows");
+    o.begin_arr();
+    EmitCtArr(o, "zero-padded char[16]", kPadded, kHPadded);
+    EmitCtArr(o, "literal with embedded zero", kInterior, kHInterior);
+    EmitCtArr(o, "binary uint8_t[12]", kBin, kHBin);
+    EmitCtArr(o, "all-zero uint8_t[9]", kZeros, kHZeros);
+    o.end_arr();
+    return;
+  }
   std::vector<uint8_t> msg = BytesOf(cmd.at("msg"));
   const uint64_t k0 = WordOf(cmd.at("k0")), k1 = WordOf(cmd.at("k1"));
   o.kv_str("e", "SIP");
@@ -26,6 +81,9 @@ static void CmdSip(const Json& cmd, JsonOut& o) {
   const uint64_t h_ch = nop::SipHash::Compute(nop::BlockReader<char>(chbuf.data(), msg.size()), k0, k1);
   o.kv_word("u8", h_u8, 8);
   o.kv_word("ch", h_ch, 8);
+  uint64_t ha = 0;
+  if (SipArrayN<uint8_t>(msg, k0, k1, &ha)) o.kv_word("au8", ha, 8);
+  if (SipArrayN<char>(msg, k0, k1, &ha)) o.kv_word("ach", ha, 8);
 }
 
 // ---- HostEndian ------------------------------------------------------------------
